@@ -49,17 +49,18 @@ pub fn run(ctx: &Ctx) -> i32 {
     // 9 / 10 an indexed sprite (transparent index in use) whose lowest layer is a hidden / visible background layer,
     // 11 / 12 layer flag words with the reference, background, locked ... bits set (with / without the visible bit),
     // 13 the middle layer hidden and every cel of the later frames a link to frame 0 (where frame 0 has a cel on that layer),
-    // 14 the cel chunks of every frame stored out of layer order
+    // 14 the cel chunks of every frame stored out of layer order,
+    // 15 every layer a tilemap layer, the later frames made of links to frame 0
     let mut cases = Vec::new();
     for (si, (nf, nl)) in shapes.iter().enumerate() {
         for m in 0..(1u32 << (nf * nl)) {
-            for variant in 0..15 {
+            for variant in 0..16 {
                 cases.push((si, m, variant));
             }
         }
     }
     let fam = "cells";
-    ctx.family(fam, cases.len() as u64, "shapes (frames,layers) in {(2,3),(3,2),(1,4),(4,1)} (thorough: + (3,3),(2,5),(5,2)): every subset of the F*L cells present, each with unique offset, pixels, opacity and user-data record; variants: plain / one linked cell / a tilemap layer / a hidden layer / a non-Normal blend mode / a hidden group parent / all layers at opacity 255 with in-canvas cels of reduced cel opacity / a non-zero z-index field in every cel chunk with the lowest or the highest layer hidden / an indexed sprite with the transparent index in use whose lowest layer is a hidden or a visible background layer / layer flag words carrying the reference, background, locked, continuous and collapsed bits / the middle layer hidden and the later frames made of links to frame 0 / cel chunks stored out of layer order. Three routes must agree; single-visible-layer frames must equal the cel image; tilemap image must equal its cel image (checked directly on the library's outputs and against the model)", true);
+    ctx.family(fam, cases.len() as u64, "shapes (frames,layers) in {(2,3),(3,2),(1,4),(4,1)} (thorough: + (3,3),(2,5),(5,2)): every subset of the F*L cells present, each with unique offset, pixels, opacity and user-data record; variants: plain / one linked cell / a tilemap layer / a hidden layer / a non-Normal blend mode / a hidden group parent / all layers at opacity 255 with in-canvas cels of reduced cel opacity / a non-zero z-index field in every cel chunk with the lowest or the highest layer hidden / an indexed sprite with the transparent index in use whose lowest layer is a hidden or a visible background layer / layer flag words carrying the reference, background, locked, continuous and collapsed bits / the middle layer hidden and the later frames made of links to frame 0 / cel chunks stored out of layer order / tilemap layers only, with linked cels in the later frames. Three routes must agree; single-visible-layer frames must equal the cel image; tilemap image must equal its cel image (checked directly on the library's outputs and against the model)", true);
     let fmt = Fmt::Rgba;
     cases.par_iter().for_each(|(si, m, variant)| {
         let case = || format!("shape={:?} present={:b} variant={}", shapes[*si], m, variant);
@@ -75,7 +76,8 @@ pub fn run(ctx: &Ctx) -> i32 {
             f.frames[0].push(new_palette(0, pal_entries(6, 2)));
         }
         let tm_layer = if *variant == 2 { Some(nl - 1) } else { None };
-        if tm_layer.is_some() {
+        let all_tm = *variant == 15;
+        if tm_layer.is_some() || all_tm {
             f.frames[0].push(Body::Tileset(tileset(4, 4, 2, 1, tile_pixels(&fmt, 4, 2, 1, 3, (0, 0)), "ts")));
         }
         let mut shift = 0u16;
@@ -86,7 +88,7 @@ pub fn run(ctx: &Ctx) -> i32 {
             shift = 1;
         }
         for l in 0..nl {
-            let mut ly = if tm_layer == Some(l) { Layer::tilemap(&format!("l{}", l), 4) } else { Layer::image(&format!("l{}", l)) };
+            let mut ly = if tm_layer == Some(l) || all_tm { Layer::tilemap(&format!("l{}", l), 4) } else { Layer::image(&format!("l{}", l)) };
             ly.opacity = if *variant == 6 { 255 } else { 255 - 10 * l as u8 };
             if (*variant == 3 || *variant == 7) && l == 0 {
                 ly.flags = 2;
@@ -127,7 +129,10 @@ pub fn run(ctx: &Ctx) -> i32 {
                 let li = l as u16 + shift;
                 let uid = (fr * nl + l) as u32;
                 let (x, y, op) = if *variant == 6 { ((fr % 3) as i16, (l % 2) as i16, 200 - uid as u8 * 9) } else { (fr as i16 - 1, l as i16 - 1, 255 - uid as u8 * 3) };
-                let body = if tm_layer == Some(l) {
+                let body = if all_tm && fr > 0 && m >> l & 1 == 1 {
+                    // variant 15: every layer is a tilemap layer and the later frames link to frame 0
+                    link_cel(li, x, y, op, 0)
+                } else if tm_layer == Some(l) || all_tm {
                     tm_cel(li, x * 2, y, op, 2, 2, vec![1 + uid % 3, 2, 3, uid % 4])
                 } else if *variant == 1 && first_real.map_or(false, |(rf, rl)| rl == l && rf != fr) {
                     link_cel(li, x, y, op, first_real.unwrap().0 as u16)
